@@ -1,5 +1,5 @@
 (* Prototype: block-level round trip, with and without the AuxPoW section (C01 / C12) *)
-From RBP Require Import Bytes Wire Chain.
+From RBP Require Import Bytes Hashes Wire Block.
 
 Record abranch := { br_w : cs_width; br_hashes : list bytes; br_mask : N }.
 Record aaux := { ax_tx : atx; ax_hash : bytes; ax_b1 : abranch; ax_b2 : abranch; ax_parent : header }.
@@ -17,7 +17,6 @@ Definition wf_branch (b:abranch) : bool :=
   cs_fits (br_w b) (N.of_nat (length (br_hashes b))) && forallb (fun h => (length h =? 32)%nat) (br_hashes b) && (br_mask b <? 2^32).
 Definition wf_aux (a:aaux) : bool :=
   wf_tx (ax_tx a) && (length (ax_hash a) =? 32)%nat && wf_branch (ax_b1 a) && wf_branch (ax_b2 a) && wf_header (ax_parent a).
-Definition aux_expected (c:coin) (h:header) : bool := match auxpow_version c with Some v => v <=? h_version h | None => false end.
 Definition wf_block (c:coin) (b:ablock) : bool :=
   wf_header (ab_header b) && cs_fits (ab_cw b) (N.of_nat (length (ab_txs b))) && forallb wf_tx (ab_txs b)
   && match ab_aux b with Some a => aux_expected c (ab_header b) && wf_aux a | None => negb (aux_expected c (ab_header b)) end.
@@ -71,7 +70,7 @@ Proof.
 Qed.
 
 Definition parsed_block (size:N) (b:ablock) : block :=
-  {| b_size := size; b_header := ab_header b;
+  {| b_size := size; b_header := ab_header b; b_aux := match ab_aux b with Some _ => true | None => false end;
      b_txcount := {| vval := N.of_nat (length (ab_txs b)); vraw := cs_enc (ab_cw b) (N.of_nat (length (ab_txs b))) |};
      b_txs := map parsed_tx (ab_txs b) |}.
 
@@ -81,19 +80,17 @@ Theorem read_block_ser c size b rest : wf_block c b = true ->
   read_block c size (ser_block b ++ rest) = Ok (parsed_block size b, rest).
 Proof.
   unfold wf_block. rewrite !andb_true_iff. intros [[[Hh Hcw] Htxs] Haux].
-  unfold read_block, ser_block. rewrite <- !app_assoc.
+  unfold read_block, ser_block, parsed_block. rewrite <- !app_assoc.
   erewrite bind_ok by (apply read_header_ser; assumption).
   assert (Htx : read_n read_tx (N.of_nat (length (ab_txs b))) (flat_map ser_tx_disk (ab_txs b) ++ rest) = Ok (map parsed_tx (ab_txs b), rest)).
   { apply (read_n_ser read_tx ser_tx_disk parsed_tx wf_tx); auto using read_tx_ser, ser_tx_nonempty. }
-  unfold aux_expected in Haux.
   destruct (ab_aux b) as [a|].
-  - apply andb_true_iff in Haux as [Hexp Hwa]. destruct (auxpow_version c) as [v|]; [|discriminate]. rewrite Hexp.
+  - apply andb_true_iff in Haux as [Hexp Hwa]. rewrite Hexp.
     erewrite bind_ok by (apply read_auxpow_ser; assumption).
     erewrite bind_ok by (apply read_cs_enc; assumption). cbn [vval].
     erewrite bind_ok by exact Htx. reflexivity.
-  - cbn [app].
-    erewrite bind_ok.
-    2:{ destruct (auxpow_version c) as [v|]; [|reflexivity]. apply negb_true_iff in Haux. rewrite Haux. reflexivity. }
+  - cbn [app]. apply negb_true_iff in Haux. rewrite Haux.
+    erewrite bind_ok by reflexivity.
     erewrite bind_ok by (apply read_cs_enc; assumption). cbn [vval].
     erewrite bind_ok by exact Htx. reflexivity.
 Qed.
@@ -109,3 +106,36 @@ Proof.
   repeat split.
 Qed.
 Print Assumptions read_block_ser.
+
+(* ---------- C12: when a section is (not) decoded ---------- *)
+(* a coin without threshold never decodes a section, whatever the version *)
+Theorem no_threshold_no_section c size : auxpow_version c = None -> forall s b rest, read_block c size s = Ok (b, rest) -> b_aux b = false.
+Proof.
+  intros Hc s b rest H. unfold read_block, bind, aux_expected in H. rewrite Hc in H.
+  destruct (read_header s) as [[h s1]| | |]; try discriminate. cbn [ret] in H.
+  destruct (read_cs s1) as [[cnt s2]| | |]; try discriminate.
+  destruct (read_n read_tx (vval cnt) s2) as [[txs s3]| | |]; try discriminate. unfold ret in H. now inversion H.
+Qed.
+(* the section is decoded exactly when the header version is at or above the threshold (equality included) *)
+Theorem section_iff_threshold c t size s b rest : auxpow_version c = Some t -> read_block c size s = Ok (b, rest) ->
+  b_aux b = (t <=? h_version (b_header b)).
+Proof.
+  intros Hc H. unfold read_block, bind, aux_expected in H. rewrite Hc in H.
+  destruct (read_header s) as [[h s1]| | |]; try discriminate.
+  destruct (t <=? h_version h) eqn:E.
+  - destruct (read_auxpow s1) as [[u s1']| | |]; try discriminate.
+    destruct (read_cs s1') as [[cnt s2]| | |]; try discriminate.
+    destruct (read_n read_tx (vval cnt) s2) as [[txs s3]| | |]; try discriminate. unfold ret in H. inversion H; subst. cbn. now rewrite E.
+  - cbn [ret] in H. destruct (read_cs s1) as [[cnt s2]| | |]; try discriminate.
+    destruct (read_n read_tx (vval cnt) s2) as [[txs s3]| | |]; try discriminate. unfold ret in H. inversion H; subst. cbn. now rewrite E.
+Qed.
+(* the published thresholds, and which coins have one *)
+From RBP Require Published.
+Definition threshold_of (name:list N) : option (option N) :=
+  option_map (fun e => snd (snd e)) (find (fun e => if list_eq_dec N.eq_dec (fst e) name then true else false) Published.coins).
+Theorem published_thresholds :
+  map (fun e => (fst e, snd (snd e))) Published.coins =
+  [ ([98; 105; 116; 99; 111; 105; 110], None); ([100; 111; 103; 101; 99; 111; 105; 110], Some 0x620102); ([108; 105; 116; 101; 99; 111; 105; 110], None);
+    ([109; 121; 114; 105; 97; 100; 99; 111; 105; 110], None); ([110; 97; 109; 101; 99; 111; 105; 110], Some 0x10101);
+    ([110; 111; 116; 101; 98; 108; 111; 99; 107; 99; 104; 97; 105; 110], None); ([116; 101; 115; 116; 110; 101; 116; 51], None); ([117; 110; 111; 98; 116; 97; 110; 105; 117; 109], None) ].
+Proof. vm_compute. reflexivity. Qed.
